@@ -55,6 +55,13 @@ def gen(rng, tier, i):
         batch.append('clone /vobj %s' % t)
         if len(batch) == 12: cmd(';'.join(batch)); batch = []
     if batch: cmd(';'.join(batch))
+    # some heart-beat objects hold an item whose move_or_destruct() hook - run by the driver in the middle of the holder's
+    # destruct - switches the holder's heart beat on again, or (error class) fails and thereby abandons the destruct
+    if rng.random() < 0.35:
+        for k, t in enumerate(rng.sample(names[:n], min(n, rng.randint(1, 3)))):
+            it = 'i%d' % (k + 1)
+            hook = 'bomb %d err' % rng.randint(100, 199) if (cls == 'error' and rng.random() < 0.5) else 'hb env %d' % rng.choice((1, 1, 2))
+            cmd('clone /vobj %s;move %s %s;sc %s mod %s' % (it, it, t, it, hook))
     # heart-beat scripts: actions on chosen beats
     for t in list(names[:n]):
         if rng.random() < 0.6:
@@ -108,6 +115,16 @@ def check(plan, res):
     err_ticks = set()
     last_hb = None
     beats_in_tick = {}
+    index_of = {id(e): i for i, e in enumerate(evs)}
+    def abandoned(ev):
+        # the error report that follows names move_or_destruct among its frames, before anything else is recorded but hook output
+        for x in evs[index_of[id(ev)] + 1:]:
+            if x.cycle != ev.cycle: return False
+            if x.kind != 'R': continue
+            w0 = x.rest.split(' ')[0]
+            if w0 == 'ERR': return 'move_or_destruct@' in x.rest
+            if w0 in ('DEST', 'DO', 'HB', 'CO'): return False
+        return False
     for e in evs:
         if e.kind == 'cycle': last_hb = None
         if e.kind == 'R':
@@ -126,6 +143,8 @@ def check(plan, res):
                 k, inr = pos(e)
                 objs.setdefault(w[1], []).append(('set', k, inr, 0, 0))     # reload_object() = set_heart_beat(ob, 0); the object lives on
             elif w[0] in ('DEST', 'QUIT') and len(w) > 1:
+                # a destruct that a move_or_destruct() hook aborted with an error leaves the object as it was
+                if w[0] == 'DEST' and abandoned(e): continue
                 k, inr = pos(e)
                 objs.setdefault(w[1], []).append(('gone', k, inr))
             elif w[0] == 'ERR':
@@ -217,8 +236,8 @@ def check(plan, res):
 def _state_at_end(tl):
     on = None; n = 0
     for it in tl:
+        if it[0] == 'gone': return False, 0      # tags are never reused: what a hook sets while the object is being destructed dies with it
         if it[0] == 'set': on = it[3] > 0; n = it[3]
-        elif it[0] == 'gone': on = False
         elif it[0] == 'failed': on = False
     if on is None: return None
     return on, n
